@@ -113,6 +113,8 @@ pub struct OstCfg {
 #[derive(Clone, Debug)]
 pub struct AppScript {
     pub need_time: bool,
+    /// a successful write_absolute_time clears need_time (an application that sets its clock)
+    pub clear_need_time: bool,
     pub local_control: bool,
     pub device_trouble: bool,
     pub config_corrupt: bool,
@@ -134,6 +136,7 @@ impl Default for AppScript {
     fn default() -> Self {
         Self {
             need_time: false,
+            clear_need_time: false,
             local_control: false,
             device_trouble: false,
             config_corrupt: false,
@@ -164,6 +167,7 @@ impl AppScript {
         for (k, x) in o {
             match k.as_str() {
                 "need_time" => self.need_time = x.as_bool().unwrap_or(false),
+                "clear_need_time" => self.clear_need_time = x.as_bool().unwrap_or(false),
                 "local_control" => self.local_control = x.as_bool().unwrap_or(false),
                 "device_trouble" => self.device_trouble = x.as_bool().unwrap_or(false),
                 "config_corrupt" => self.config_corrupt = x.as_bool().unwrap_or(false),
@@ -215,7 +219,11 @@ impl OutstationApplication for App {
     fn write_absolute_time(&mut self, time: Timestamp) -> Result<(), RequestError> {
         self.rec
             .push(json!(["app", "write_time", codec::jint(time.raw_value() as i128)]));
-        req_err(&self.script.lock().unwrap().write_time)
+        let mut s = self.script.lock().unwrap();
+        if s.clear_need_time && s.write_time == "ok" {
+            s.need_time = false;
+        }
+        req_err(&s.write_time)
     }
     fn get_application_iin(&self) -> ApplicationIin {
         let s = self.script.lock().unwrap();
@@ -729,23 +737,23 @@ fn make_config(cfg: &OstCfg) -> OutstationConfig {
 
 // ---------------------------------------------------------------- the runner
 
-struct Run {
-    cfg: OstCfg,
-    clock: Clock,
-    rec: Recorder,
-    sess: Arc<Mutex<Vec<(i64, String)>>>,
-    script: Script,
-    handle: OutstationHandle,
-    pipes: tokio::sync::mpsc::UnboundedSender<shim::Pipe>,
-    task: tokio::task::JoinHandle<()>,
-    conn: Option<Conn>,
-    intern: Interner,
-    last_req_seq: Option<u8>,
-    last_req_bytes: Option<Vec<u8>>,
-    last_sol_con: Option<u8>,
-    last_sol_seq: Option<u8>,
-    last_unsol_seq: Option<u8>,
-    dead: bool,
+pub struct Run {
+    pub cfg: OstCfg,
+    pub clock: Clock,
+    pub rec: Recorder,
+    pub sess: Arc<Mutex<Vec<(i64, String)>>>,
+    pub script: Script,
+    pub handle: OutstationHandle,
+    pub pipes: tokio::sync::mpsc::UnboundedSender<shim::Pipe>,
+    pub task: tokio::task::JoinHandle<()>,
+    pub conn: Option<Conn>,
+    pub intern: Interner,
+    pub last_req_seq: Option<u8>,
+    pub last_req_bytes: Option<Vec<u8>>,
+    pub last_sol_con: Option<u8>,
+    pub last_sol_seq: Option<u8>,
+    pub last_unsol_seq: Option<u8>,
+    pub dead: bool,
 }
 
 fn seq_of(v: &Value, next: u8, same: u8) -> u8 {
@@ -762,7 +770,7 @@ fn seq_of(v: &Value, next: u8, same: u8) -> u8 {
 }
 
 impl Run {
-    fn new(cfg: OstCfg) -> Run {
+    pub fn new(cfg: OstCfg) -> Run {
         let clock = Clock::new();
         let rec = Recorder::new(clock);
         let mut s = AppScript::default();
@@ -831,7 +839,7 @@ impl Run {
     }
 
     /// gather everything the endpoint produced since the last call into `line`
-    fn collect(&mut self, line: &mut Map<String, Value>) {
+    pub fn collect(&mut self, line: &mut Map<String, Value>) {
         let mut tx = Vec::new();
         let mut ltx = Vec::new();
         let mut errs = Vec::new();
@@ -902,7 +910,7 @@ impl Run {
         }
     }
 
-    async fn step(&mut self, st: &Value) -> Value {
+    pub async fn step(&mut self, st: &Value) -> Value {
         let mut line = Map::new();
         let k = st["k"].as_str().unwrap_or("").to_string();
         line.insert("k".into(), json!(k));
